@@ -138,6 +138,10 @@ def eager_entry_points(_):
     lazy = {
         "store-lazy": lambda a, s, w: cubed.store(a, w.store("t1"), compute=False),
         "to_zarr-lazy": lambda a, s, w: cubed.to_zarr(a, w.store("t2"), compute=False),
+        "store-lazy-region-new-target": lambda a, s, w: cubed.store(a, w.store("t3"), regions=(slice(0, 4),), compute=False),
+        "to_zarr-lazy-region-new-target": lambda a, s, w: cubed.to_zarr(a, w.store("t4"), region=(slice(0, 4),), compute=False),
+        "store-lazy-several": lambda a, s, w: cubed.store([a, xp.negative(a)], [w.store("t5"), w.store("t6")], compute=False),
+        "store-refused-misaligned": "refused",
         "plan": lambda a, s, w: a.plan(),
         "rechunk": lambda a, s, w: a.rechunk((1,)),
         "negative": lambda a, s, w: xp.negative(a + a),
@@ -148,6 +152,22 @@ def eager_entry_points(_):
         try:
             a = xp.negative(xp.asarray(np.arange(1.0, 5.0), chunks=(2,), spec=spec))
             mark = w.mark()
+            if f == "refused":
+                # an eager store that must be refused (region not aligned with the target's chunks) leaves nothing behind
+                import zarr as _z
+                tstore = w.store("t7")
+                za = _z.create_array(tstore, shape=(8,), dtype="f8", chunks=(4,))
+                mark = w.mark()
+                try:
+                    cubed.store(a, za, regions=(slice(1, 5),))
+                    probs.append((dict(kind="unsafe-store-accepted", entry=name), "a store into a region that is not aligned with the target's chunks was accepted"))
+                except ValueError:
+                    pass
+                n += 1
+                eff = side_effects(w, mark)
+                if eff or ex.entered:
+                    probs.append((dict(kind="storage-side-effect", entry=name), f"{name}: refused call touched storage / executed: {eff[:3]}"))
+                continue
             try:
                 f(a, spec, w)
             except Exception as e:
